@@ -240,16 +240,33 @@ def runOp (op : String) (fields : List String) (impl : String) : Option Verdict 
     let params ← parseParams ps
     let ma := fmtCompile (compile params a)
     let mb := fmtCompile (compile params b)
+    -- the position an error message may name: of a compile error, the line and column of ITS OWN span in THIS
+    -- source; of a parse error, those of the first positioned error the model's Parse reports for this source
+    let posOk (src : Bytes) (i : String) (pos : String) : Bool :=
+      let fmtLC (p : Nat × Nat) : String := toString p.1 ++ ":" ++ toString p.2
+      match i.splitOn " " with
+      | ["ERR", sa, _] => (match sa.toNat? with | some st => pos == fmtLC (linecol src st) | none => true)
+      | ["ERR"] =>
+        (match (parse src).2.filterMap (·.span) with
+         | sp :: _ => pos == fmtLC (linecol src sp.start.toNat)
+         | [] => true)
+      | _ => pos == "-"
     match impl.splitOn " ;; " with
-    | [ia, ib, st] =>
+    | [ia, ib, st, ps] =>
+      let posClauses : List String :=
+        match ps.splitOn " " with
+        | ["POS", pa, pb] =>
+          (if posOk a ia pa then [] else ["c14-error-position-not-of-this-source"]) ++
+          (if posOk b ib pb then [] else ["c14-error-position-not-of-this-source", "c14-result-depends-on-history"])
+        | _ => ["unreadable-result"]
       -- each call is the function value for its own (source, parameters): no history
-      pure { model := (if ma == normCompile ia then ia else ma) ++ " ;; " ++ (if mb == normCompile ib then ib else mb) ++ " ;; PARAMS-OK",
-             oracle := (if st != "PARAMS-OK" then ["c14-parameter-map-modified", "c06-let-escapes-its-program"] else []) ++
+      pure { model := (if ma == normCompile ia then ia else ma) ++ " ;; " ++ (if mb == normCompile ib then ib else mb) ++ " ;; PARAMS-OK ;; " ++ ps,
+             oracle := posClauses ++ (if st != "PARAMS-OK" then ["c14-parameter-map-modified", "c06-let-escapes-its-program"] else []) ++
                        (if mb != normCompile ib && ma == normCompile ia then ["c06-let-escapes-its-program", "c14-result-depends-on-history"] else []) ++
                        -- C13 / C05 on each call of the sequence: fails exactly on parse error or misuse, whatever was compiled before
                        ((CompileOracle.clauses a params ia ++ CompileOracle.clauses b params ib).filter
                           fun c => c.startsWith "c13-" || c.startsWith "c05-") }
-    | _ => pure { model := ma ++ " ;; " ++ mb ++ " ;; PARAMS-OK", oracle := ["unreadable-result"] }
+    | _ => pure { model := ma ++ " ;; " ++ mb ++ " ;; PARAMS-OK ;; POS - -", oracle := ["unreadable-result"] }
   | "COMPILE2", [ha, hb, ps] => do
     let a ← Bytes.ofHex ha
     let b ← Bytes.ofHex hb
@@ -265,9 +282,18 @@ def runOp (op : String) (fields : List String) (impl : String) : Option Verdict 
     let s ← Bytes.ofHex h
     pure { model := Bytes.toHexField (if which == "s" then quoteSQLString s else quoteIdentifier s),
            oracle := CompileOracle.quoteClauses (which == "s") s impl }
-  | "CLI", [h, _mode] => do
-    let input ← Bytes.ofHex h
-    let lines := bufioLines input
+  | "CLI", [h, mode] => do
+    let input0 ← Bytes.ofHex h
+    -- mode filesX:k:j: a directory is named as an input before piece j of k (every Read of it fails): what the
+    -- tool reads is the first j pieces, and the input could not be read completely
+    let (input, readFails) :=
+      match mode.splitOn ":" with
+      | ["filesX", ks, js] =>
+        match ks.toNat?, js.toNat? with
+        | some k, some j => (if k == 0 then [] else input0.take (input0.length * j / k), true)
+        | _, _ => (input0, false)
+      | _ => (input0, false)
+    let lines := let r := bufioLines input; (r.1, r.2 || readFails)
     let spec := CliSpec.run modelCompileOpt lines.1 lines.2
     -- oracle: the tool's observable behaviour is the whole-input specification's
     let oracle : List String :=
@@ -281,7 +307,7 @@ def runOp (op : String) (fields : List String) (impl : String) : Option Verdict 
           (if (code != "0") != spec.exitNonZero then ["c16-exit-status-differs-from-specification"] else []) ++
           (if out == Bytes.toHexField spec.out && (code != "0") == spec.exitNonZero then ["c16-error-count-differs"] else [])
         | _ => ["unreadable-result"]
-    pure { model := fmtCli (cliMain modelCompileOpt input), oracle }
+    pure { model := fmtCli (cliRun modelCompileOpt lines.1 lines.2), oracle }
   | "HIST", [h, ps, _g, _k] => do
     let s ← Bytes.ofHex h
     let params ← parseParams ps
